@@ -12,11 +12,58 @@ SHAPE = [
     ("adj_deps_length_one", "implies(result[0] == 3, result[1] == 1)"),
     ("ics_length", "implies(result[0] == 4, 2 <= result[1] and result[1] <= n - 1)"),
     ("enough_units_store_dependencies", "implies(n >= 2 and min(s, n - 1) >= n - 1, result[0] == 3)"),
+    ("cost_is_mixed_optimum", "result[2] == MIXOPT(n, s)"),
+    ("cost_of_chosen_step", "implies(result[0] == 4, result[2] == result[1] + MIXOPT(result[1], s) + "
+                            "MIXOPT(n - result[1], min(s, n - 1) - 1)) and "
+                            "implies(result[0] == 3 and n >= 2, result[2] == 1 + MIXOPT(n - 1, min(s, n - 1) - 1))"),
+    ("adj_deps_only_if_strictly_better",
+     "implies(result[0] == 3 and min(s, n - 1) <= n - 2, forall(2, n, lambda j: "
+     "result[2] < j + MIXOPT(j, s) + MIXOPT(n - j, min(s, n - 1) - 1)))"),
+    ("largest_minimiser", "implies(result[0] == 4, forall(2, n, lambda j: implies(j > result[1], "
+                          "result[2] < j + MIXOPT(j, s) + MIXOPT(n - j, min(s, n - 1) - 1))))"),
 ]
 PLANNER_RAISES = [("ValueError", "n <= 0 or s < min(1, n - 1)")]
 
 
 def register(reg):
+    # MIXOPT(n, s): the mixed optimum as the recurrence of Maddison (2024) (DESIGN.md 6.2), s clamped
+    # to n-1; MIXC(n, s, i) is the cost of a first restart segment of length i.
+    reg.spec_function("MIXOPT", ["int", "int"], "int")
+    reg.spec_axioms("MIXOPT", [
+        ("MIXOPT.clamp", "forall_int(lambda n, s: implies(n >= 1 and s > n - 1, MIXOPT(n, s) == MIXOPT(n, n - 1)))"),
+        ("MIXOPT.enough_units", "forall_int(lambda n, s: implies(n >= 1 and s >= n - 1, MIXOPT(n, s) == n))"),
+        ("MIXOPT.one_unit", "forall_int(lambda n: implies(n >= 3, 2 * MIXOPT(n, 1) == n * (n + 1) - 2))"),
+        ("MIXOPT.upper_adj", "forall_int(lambda n, s: implies(2 <= s and s <= n - 2, "
+                             "MIXOPT(n, s) <= 1 + MIXOPT(n - 1, s - 1)))"),
+        ("MIXOPT.upper_ics", "forall_int(lambda n, s, i: implies(2 <= s and s <= n - 2 and 2 <= i and i < n, "
+                             "MIXOPT(n, s) <= i + MIXOPT(i, s) + MIXOPT(n - i, s - 1)))"),
+        ("MIXOPT.attained", "forall_int(lambda n, s: implies(2 <= s and s <= n - 2, "
+                            "MIXOPT(n, s) == 1 + MIXOPT(n - 1, s - 1) or "
+                            "exists(2, n, lambda i: MIXOPT(n, s) == i + MIXOPT(i, s) + MIXOPT(n - i, s - 1))))"),
+    ])
+    reg.add(Contract(
+        "mixed.optimal_steps_mixed#wrapped", params=[("n", "int"), ("s", "int")],
+        raises=[("ValueError", "n <= 0 or s < min(1, n - 1)")], pure=True, returns="int", uf_params=["n", "s"],
+        ensures=[("is_mixed_optimum", "result == MIXOPT(n, s)")], frame=[], assumed=True,
+        note="what callers see through cache_step; proved on the body of optimal_steps_mixed "
+             "(well-founded recursion on n)", props=("C06",)))
+    reg.alias("optimal_steps_mixed", "mixed.optimal_steps_mixed#wrapped")
+    reg.add(Contract(
+        "mixed.optimal_steps_mixed", params=[("n", "int"), ("s", "int")],
+        requires=[("clamped_by_wrapper", "s <= n - 1")],
+        raises=[("ValueError", "n <= 0 or s < min(1, n - 1) or s > n - 1")],
+        returns="int", ensures=[("is_mixed_optimum", "result == MIXOPT(n, s)")], frame=[],
+        recursion_measure="n",
+        loops=[LoopSpec("for i in range(2, n)", [
+            ("index", "2 <= it_i and it_i <= n"),
+            ("domain", "2 <= s and s <= n - 2"),
+            ("upper_adj", "m <= 1 + MIXOPT(n - 1, s - 1)"),
+            ("upper_ics", "forall(2, it_i, lambda j: m <= j + MIXOPT(j, s) + MIXOPT(n - j, s - 1))"),
+            ("attained", "m == 1 + MIXOPT(n - 1, s - 1) or "
+                         "exists(2, it_i, lambda j: m == j + MIXOPT(j, s) + MIXOPT(n - j, s - 1))")],
+            decreases="n - it_i")],
+        props=("C06",), exc_props={"ValueError": ("C06", "C17"), "*": ("C06", "C17")}))
+
     # F17/F21 as seen by callers: wrapped_fn(n, s) = fn(n, min(s, n - 1)), memoised
     reg.add(Contract(
         "mixed.mixed_step_memoization#wrapped", params=[("n", "int"), ("s", "int")],
@@ -34,11 +81,17 @@ def register(reg):
         raises=[("ValueError", "n <= 0 or s < min(1, n - 1) or s > n - 1")],
         returns=("tuple", ["steptype", "int", "int"]), ensures=SHAPE, frame=[],
         locals={"m": ("opt", ("tuple", ["steptype", "int", "int"]))},
+        recursion_measure="n",
         loops=[LoopSpec("for i in range(2, n)", [
             ("index", "2 <= it_i and it_i <= n"),
             ("domain", "n >= 4 and s >= 2 and s <= n - 2"),
             ("none_before_first", "(m is None) == (it_i == 2)"),
-            ("best_so_far", "implies(m is not None, m[0] == 4 and 2 <= m[1] and m[1] <= it_i - 1)")],
+            ("best_so_far", "implies(m is not None, m[0] == 4 and 2 <= m[1] and m[1] <= it_i - 1)"),
+            ("cost_of_best", "implies(m is not None, m[2] == m[1] + MIXOPT(m[1], s) + MIXOPT(n - m[1], s - 1))"),
+            ("minimum_so_far", "implies(m is not None, forall(2, it_i, lambda j: "
+                               "m[2] <= j + MIXOPT(j, s) + MIXOPT(n - j, s - 1)))"),
+            ("last_minimiser_so_far", "implies(m is not None, forall(2, it_i, lambda j: implies(j > m[1], "
+                                      "m[2] < j + MIXOPT(j, s) + MIXOPT(n - j, s - 1))))")],
             decreases="n - it_i")],
         props=("C01", "C06", "C16"), exc_props={"ValueError": ("C17",), "*": ("C17",)}))
 
